@@ -39,7 +39,7 @@ ValOf(o, key) == CHOOSE v \in {it[3] : it \in {x \in Items(o) : <<x[1], x[2]>> =
 \* every item's recovered value is one it held at or after its last durable write
 Admissible(rec) == \A key \in ItemKeys : \E i \in 1..Len(past) : ValOf(rec, key) = ValOf(past[i], key)
 
-InitC == Init /\ dur = 0 /\ past = <<Obs(mem)>> /\ crashed = FALSE
+InitC == Init /\ dur = Len(file) /\ past = <<Obs(mem)>> /\ crashed = FALSE
 
 \* an ordinary engine call; snapshots/compactions/compress make everything before them durable
 Durabilising == {"SaveSnapshot", "RewriteAOF", "VCompress", "Reopen", "VDeleteCut"}
@@ -76,7 +76,11 @@ CrashSnapRenamed ==
   /\ snap' = <<mem>>
   /\ mem' = Recover(snap', file)
   /\ ops' = Append(ops, [op |-> "Crash", point |-> "snap.renamed", res |-> "ok"])
-  /\ UNCHANGED <<file, clock, dev, delat, dur, past>>
+  \* named deviation (known_findings.json KF-C02-1): replaying the old log over the newer image is not
+  \* idempotent for edges whose weight/properties changed or that were re-linked (GLINK/GUNLINK are
+  \* applied again to versions the image already holds)
+  /\ dev' = IF mem.out # {} THEN dev \cup {"replay_over_newer_snapshot"} ELSE dev
+  /\ UNCHANGED <<file, clock, delat, dur, past>>
 
 \* crash inside RewriteAOF after the compacted log replaced the old one (snapshot untouched)
 CrashRwReplaced ==
@@ -113,17 +117,28 @@ NextC ==
 SpecC == InitC /\ [][NextC]_cvars
 
 \* C02: what the next Open reads after a crash is explained by the acknowledged history
-Inv_CrashAdmissible == crashed => Admissible(Obs(mem))
+Inv_CrashAdmissible == (crashed /\ dev = {}) => Admissible(Obs(mem))
 \* C02: opening the repaired directory again changes nothing
 Inv_FixedPoint == crashed => Obs(Recover(snap, file)) = Obs(mem)
 
 ViewC == <<mem, snap, file, clock, dev, delat, dur, past, crashed>>
 BoundC == Bound /\ Len(past) <= MaxOps + 2
 
-\* corpus: histories ending in a crash, with the set of admissible item values
-EmitC == crashed /\ ops[Len(ops)].op = "Crash" =>
-           PrintT(<<"CORPUS", ToJson([ops |-> ops, obs |-> Obs(mem),
-                                      past |-> past, dur |-> dur])>>)
-NextCorpusC == EmitC /\ NextC
+\* corpus: for every reachable pre-crash state, what each crash point must recover to.
+\*   between      : the set of admissible outcomes of a crash right now (any flushed prefix of the log)
+\*   torn         : the outcome when the last frame of the log is torn (exactly the log without its last command)
+\*   early        : crash inside SaveSnapshot/RewriteAOF before the rename/replace (Begin flushed everything)
+\*   snap_renamed : crash after the new image was renamed into place, before the log was truncated
+\*   snap_done    : crash after the truncation (the shadow buffer is lost: nothing was written meanwhile here)
+\*   rw_replaced  : crash after the compacted log replaced the old one
+EmitPre == ~crashed =>
+  PrintT(<<"CORPUS", ToJson([ops |-> ops, obs |-> Obs(mem), dur |-> dur, nfile |-> Len(file),
+       between |-> {Obs(Recover(snap, SubSeq(file, 1, k))) : k \in dur..Len(file)},
+       torn |-> IF file = <<>> THEN <<>> ELSE <<Obs(Recover(snap, SubSeq(file, 1, Len(file) - 1)))>>,
+       early |-> Obs(Recover(snap, file)),
+       snap_renamed |-> Obs(Recover(<<mem>>, file)),
+       snap_done |-> Obs(Recover(<<mem>>, <<>>)),
+       rw_replaced |-> Obs(Recover(snap, Emit(mem)))])>>)
+NextCorpusC == EmitPre /\ (Step \/ Flush)
 SpecCorpusC == InitC /\ [][NextCorpusC]_cvars
 =============================================================================
